@@ -308,8 +308,8 @@ def r01_2(ctx: Ctx) -> None:
     # buffer in place delivers its bytes a second time)
     for p_ in poss:
         pn = q.node_for(d, p_)
-        ok = any(dcfg.dominates(q.node_for(d, b), pn) and not any(dcfg.reaches(q.node_for(d, b), q.node_for(d, x)) and dcfg.reaches(q.node_for(d, x), pn) for x in
-                                                                    [n for n in walk(d.node) if isinstance(n, ast.AugAssign) and norm(n.target) == "self._pos"]) for b in bufs)
+        # every way to the reset passes an assignment of the buffer (one per arm of a conditional will do)
+        ok = bool(bufs) and not dcfg.reaches(dcfg.entry, pn, avoid=[q.node_for(d, b) for b in bufs])
         ctx.check(ok, "R01.2", d, p_, "the read position is reset only where the carry-over buffer was replaced",
                   "`self._pos = 0` on a path that has not replaced `self._buf`: the bytes that were already delivered from the buffer are delivered again by the next call",
                   construct="decoder pos reset without buffer replacement")
@@ -360,8 +360,12 @@ def r01_17(ctx: Ctx, rule: str = "R01.17") -> None:
     def special(fn) -> Tuple[set, set]:
         bcj, cond = set(), set()
         for x in walk(fn.node):
-            if isinstance(x, ast.Compare) and isinstance(x.ops[0], ast.In) and isinstance(x.comparators[0], (ast.List, ast.Tuple)):
-                ids = {e.id for e in x.comparators[0].elts if isinstance(e, ast.Name) and e.id.startswith("FILTER_")}
+            seq = x.comparators[0] if isinstance(x, ast.Compare) and isinstance(x.ops[0], ast.In) else None
+            if isinstance(seq, ast.Name):
+                # a module-level constant that lists the filters
+                seq = next((n.value for n in ctx.prog.module(fn.module).tree.body if isinstance(n, ast.Assign) and any(isinstance(t_, ast.Name) and t_.id == seq.id for t_ in n.targets)), None)
+            if isinstance(seq, (ast.List, ast.Tuple)):
+                ids = {e.id for e in seq.elts if isinstance(e, ast.Name) and e.id.startswith("FILTER_")}
                 if ids:
                     bcj |= ids
             if isinstance(x, ast.BoolOp) and isinstance(x.op, ast.And) and any(isinstance(v, ast.Call) and attr_tail(v) == "is_compressor_id" for v in x.values):
